@@ -104,3 +104,63 @@ Proof.
   rewrite gen_split_scan_is_loop. unfold m_split, is_sep_none.
   destruct maxsplit; destruct sep; reflexivity.
 Qed.
+
+(* ---- redundant ---------------------------------------------------------------- *)
+Section Redundant.
+  Variables (kt : bool) (kf : K -> K).
+  Let key : K -> K := fun i => if kt then kf i else i.
+
+  Definition tup (s : red_state) := (r_seen s, r_order s, r_groups s).
+
+  Lemma gen_red_step_false seen order rg i :
+    Gredundant_groups_false_step kt kf (seen, order, rg) i
+    = tup (red_step key false (mkRed seen order rg) i).
+  Proof.
+    unfold Gredundant_groups_false_step, red_step, tup, d_mem, d_at, key. cbn [r_seen r_order r_groups].
+    destruct (d_get seen (if kt then kf i else i)) as [first|]; cbn [negb]; [|reflexivity].
+    destruct (d_get rg (if kt then kf i else i)); reflexivity.
+  Qed.
+
+  Lemma gen_red_step_true seen order rg i :
+    Gredundant_groups_true_step kt kf (seen, order, rg) i
+    = tup (red_step key true (mkRed seen order rg) i).
+  Proof.
+    unfold Gredundant_groups_true_step, red_step, tup, d_mem, d_at, group_at, key. cbn [r_seen r_order r_groups].
+    destruct (d_get seen (if kt then kf i else i)) as [first|]; cbn [negb]; [|reflexivity].
+    destruct (d_get rg (if kt then kf i else i)); reflexivity.
+  Qed.
+
+  Lemma gen_red_fold_false : forall src s,
+    fold_left (Gredundant_groups_false_step kt kf) src (tup s)
+    = tup (fold_left (red_step key false) src s).
+  Proof.
+    induction src as [|i r IH]; intro s; [reflexivity|]. cbn [fold_left].
+    destruct s as [a b c]. unfold tup at 1. cbn [r_seen r_order r_groups].
+    rewrite gen_red_step_false. apply IH.
+  Qed.
+
+  Lemma gen_red_fold_true : forall src s,
+    fold_left (Gredundant_groups_true_step kt kf) src (tup s)
+    = tup (fold_left (red_step key true) src s).
+  Proof.
+    induction src as [|i r IH]; intro s; [reflexivity|]. cbn [fold_left].
+    destruct s as [a b c]. unfold tup at 1. cbn [r_seen r_order r_groups].
+    rewrite gen_red_step_true. apply IH.
+  Qed.
+
+  Lemma gen_redundant_false_is_model src :
+    Gredundant_groups_false src kt kf = m_redundant key src.
+  Proof.
+    unfold Gredundant_groups_false, m_redundant, red_run.
+    change ((@nil (K * K), @nil K, @nil (K * list K))) with (tup (mkRed [] [] [])).
+    rewrite gen_red_fold_false. unfold tup. reflexivity.
+  Qed.
+
+  Lemma gen_redundant_true_is_model src :
+    Gredundant_groups_true src kt kf = m_redundant_groups key src.
+  Proof.
+    unfold Gredundant_groups_true, m_redundant_groups, red_run.
+    change ((@nil (K * K), @nil K, @nil (K * list K))) with (tup (mkRed [] [] [])).
+    rewrite gen_red_fold_true. unfold tup. reflexivity.
+  Qed.
+End Redundant.
